@@ -311,31 +311,36 @@ inductive Enforcer where
   | limitedServer
   deriving DecidableEq, Repr
 
+/-- what `limitedServer.Send` returns when a limiter refuses carries the ResourceExhausted status: it is a
+    `limitError`, whose `GRPCStatus()` is ResourceExhausted (string prefix tests do not reduce in the kernel:
+    the accepted forms are listed) -/
+def limitedSendSurfaces (sendErrors : List String) (limitErrorStatus : String) : Bool :=
+  sendErrors.all (fun s =>
+    s == "limitError{errors.Wrapf(err, \"failed to send series\")}" ||
+    s == "limitError{errors.Wrapf(err, \"failed to send samples\")}") &&
+  !sendErrors.isEmpty &&
+  limitErrorStatus == "status.New(codes.ResourceExhausted, e.Error())"
+
 /-- does every limit error of the enforcer carry the ResourceExhausted status (read off the sources) -/
 def surfacesAsResourceExhausted : Enforcer → Bool
   | .gateway => Thanos.Facts.storesLimitErrorCodes.all (· == "int(codes.ResourceExhausted)") &&
       !Thanos.Facts.storesLimitErrorCodes.isEmpty
-  | .limitedServer =>
-      -- the form a repair would take (string prefix tests do not reduce in the kernel: the accepted forms are listed)
-      Thanos.Facts.storesLimitedSendErrors.all (fun s =>
-        s == "status.Error(codes.ResourceExhausted, errors.Wrapf(err, \"failed to send series\").Error())" ||
-        s == "status.Error(codes.ResourceExhausted, errors.Wrapf(err, \"failed to send samples\").Error())") &&
-      !Thanos.Facts.storesLimitedSendErrors.isEmpty
+  | .limitedServer => limitedSendSurfaces Thanos.Facts.storesLimitedSendErrors Thanos.Facts.storesLimitErrorStatus
 
 /-- C09 "fails with a resource-exhausted error", for every place a limit is enforced -/
 def C09_code_full : Prop := ∀ e : Enforcer, surfacesAsResourceExhausted e = true
 
-/-- the store gateway does -/
-theorem C09_code_partial : surfacesAsResourceExhausted .gateway = true := by decide
+/-- holds of the code as it is now (repaired by /repo `fix: limitedStoreServer answers a violated limit with the
+    ResourceExhausted status`) -/
+theorem C09_code : C09_code_full := by
+  intro e
+  cases e <;> decide
 
-/-- `limitedServer.Send` returns `errors.Wrapf(err, "failed to send series")`: a plain error, which reaches the
-    client as Unknown (TSDB store behind it) — known finding `limited-server-code-not-resource-exhausted`; the exact
-    message is pinned by TestLimitedStoreServer -/
-theorem C09_code_full_false : ¬ C09_code_full := by
-  intro h
-  have := h .limitedServer
-  revert this
-  decide
+/-- before the repair `limitedServer.Send` returned `errors.Wrapf(err, "failed to send series")`: a plain error,
+    which reached the client as Unknown -/
+theorem C09_code_unrepaired_false :
+    limitedSendSurfaces ["errors.Wrapf(err, \"failed to send series\")", "errors.Wrapf(err, \"failed to send samples\")"]
+      "unknown" = false := by decide
 
 /-! ### non-vacuity -/
 example : run (new 10) [3, 4, 3, 1, 0] = [true, true, true, false, false] := by decide
